@@ -5,14 +5,14 @@ open Lean
 
 def main (args : List String) : IO UInt32 := do
   match args with
-  | [modS, nsS] =>
+  | modS :: nsS :: more =>
     initSearchPath (← findSysroot)
     let mod := modS.toName
-    let ns := nsS.toName
+    let nss := (nsS :: more).map String.toName
     let env ← importModules #[{module := mod}] {}
     let mut n := 0
     for (c, ci) in env.constants.toList do
-      if ns.isPrefixOf c && !c.isInternal then
+      if nss.any (fun ns => ns.isPrefixOf c) && !c.isInternal then
         if let .thmInfo _ := ci then
           let act : CoreM (Array Name) := Lean.collectAxioms c
           let (axs, _) ← act.toIO {fileName := "<audit>", fileMap := default} {env := env}
